@@ -22,7 +22,7 @@ def _run(ctx):
     l4 = ctx.inst("C03.L4", "LP supply discipline: Mint / Burn only in provide / withdraw, addressed to the LP token, amounts from the share computation / hook amount (C07.R2, C05.R6, C05.R7)", floor=8)
     l5 = ctx.inst("C03.L5", "no mis-credited swap: delivered asset and amount are bound to the priced ones (C02.R1-R5)", floor=6)
     pull(ctx, l1, c01, {"C01.N1", "C01.N2", "C01.N3", "C01.R1"}, "C03.L1")
-    pull(ctx, l2, c05, {"C05.N1", "C05.R3", "C05.R4", "C05.R1"}, "C03.L2")
+    pull(ctx, l2, c05, {"C05.N1", "C05.R3", "C05.R4", "C05.R1", "C05.R5"}, "C03.L2")       # R5: every declared native deposit was really attached (else shares are minted for nothing)
     pull(ctx, l3, c04, {"C04.N1", "C04.R1", "C04.R2"}, "C03.L3")
     pull(ctx, l4, c07, {"C07.R2", "C07.R3"}, "C03.L4")
     pull(ctx, l4, c05, {"C05.R6", "C05.R7"}, "C03.L4")
